@@ -8,10 +8,18 @@ package clock
 
 import "time"
 
-type simTime struct{ now time.Time }
+type simTime struct {
+	now  time.Time
+	tick func() time.Duration // when set: time that passes before each read (a running clock is not frozen between two reads)
+}
 
 //go:norace
-func (s *simTime) Now() time.Time { return s.now }
+func (s *simTime) Now() time.Time {
+	if s.tick != nil {
+		s.now = s.now.Add(s.tick())
+	}
+	return s.now
+}
 
 func (s *simTime) Sleep(time.Duration)                    { panic("simclock: Sleep") }
 func (s *simTime) After(time.Duration) <-chan time.Time   { panic("simclock: After") }
@@ -40,3 +48,14 @@ func SimAdvance(d time.Duration) { simClock.now = simClock.now.Add(d) }
 //
 //go:norace
 func SimUnfreeze() { provider = realtime }
+
+// SimTick makes time pass before every clock read (nil: stop). Only for
+// single-goroutine simulations: the callback runs in the reader.
+//
+//go:norace
+func SimTick(f func() time.Duration) { simClock.tick = f }
+
+// SimPeek reads the simulated clock without letting time pass.
+//
+//go:norace
+func SimPeek() time.Time { return simClock.now }
